@@ -6,7 +6,11 @@ theorems : lean/GoldModel/Props/C06.lean — ladder_spec (the operator ladder re
            operator_pairs (all 23 x 23 operator pairs, kernel-evaluated on the model:
            `a op1 b op2 c` binds by precedence and associates to the left), range lemmas;
            lean/GoldModel/Props/C06Expr.lean — expr_roundtrip / level_roundtrip / expr_roundtrip_memo: parse_expr (print e ++ k)
-           = (tree e, k, no diagnostics) for every well-formed expression e of the full expression grammar (unbounded).
+           = (tree e, k, no diagnostics) for every well-formed expression e of the full expression grammar (unbounded);
+           lean/GoldModel/Props/C06Ranges.lean — expr_ranges_ok / expr_encloses / expr_range / expr_maxLine: for EVERY expression
+           whose tokens are in source order the intended tree has start <= end everywhere, every node encloses its children
+           (recursively), its range is the span first..last token of the tree, no line beyond the last token; parsed_expr_ranges:
+           the same for the tree parse_expr returns on every well-formed expression (composition with expr_roundtrip).
 tie      : E5 (operator ladder) regenerated from the source; `parse` correspondence.
 oracle   : grammar-directed generator that emits text + expected tree (vlib/gen/wf.py):
            parse_gold(lex(text)) must have zero diagnostics and the expected shape; every
@@ -83,6 +87,7 @@ def run(ctx):
     ctx.prove("GoldModel.Props.C06")
     ctx.prove("GoldModel.Props.C06Expr")
     ctx.prove("GoldModel.Props.C06Alts")
+    ctx.prove("GoldModel.Props.C06Ranges")
     if not ctx.build_harness():
         return ctx.finish(rule=RULE)
     q = ctx.tier == "quick"
